@@ -364,8 +364,11 @@ func runSortlist(c *lib.Ctx) {
 	})
 	// iterator sequences
 	itSizes := []int{0, 1, 2, 3, 5, 4095, 4096, 4097, 8193}
-	for _, n := range itSizes {
-		iterList(n) // build before going parallel
+	for _, n := range itSizes { // build before going parallel
+		if e := lib.Try(func() { iterList(n) }); e != nil {
+			c.Fail("", kase{Kind: "sortlist", N: n, Order: "reversed"}, "sortlist: building a list of %d elements panicked: %s", n, lib.PanicText(e))
+			return
+		}
 	}
 	maxlen := lib.Pick(c, 4, 5)
 	for _, n := range itSizes {
